@@ -94,8 +94,8 @@ func (n *c05node) size() (nodes, leaves, wrappers int) {
 }
 
 type c05op struct {
-	kind  int // 0 set, 1 call, 2 enabled, 3 level, 4 V, 5 derive a logger, 6 text update, 7 handle read, 8 select a logger
-	a     int
+	kind  int  // 0 set, 1 call, 2 enabled, 3 level, 4 V, 5 derive a logger, 6 text update, 7 handle read, 8 select a logger
+	a     int  // cell; derive kinds 6, 7: the number of the hook registered
 	v     int8 // set value / level / IncreaseLevel threshold
 	fam   int
 	n     int    // V argument / derive kind / logger number
@@ -131,6 +131,8 @@ func (o c05op) sx() SX {
 		return L(I(5))
 	case 5:
 		return L(I(5), I(5), I(int(o.v)))
+	case 6, 7:
+		return L(I(5), I(o.n), I(o.a)) // one more hook, number o.a
 	}
 	return L(I(5), I(o.n))
 }
@@ -237,22 +239,7 @@ func (env *c05env) build(n *c05node) zapcore.Core {
 		}
 		return zapcore.NewTee(cs...)
 	case 3:
-		id := n.id
-		return zapcore.RegisterHooks(env.build(n.kids[0]), func(e zapcore.Entry) error {
-			if env.onHook != nil {
-				env.onHook(id)
-			}
-			if env.onEntry != nil {
-				env.onEntry(id, e)
-			}
-			env.events = append(env.events, c05ev{1, id})
-			if id%2 == 1 {
-				// a failing core: hooks with an odd id report an error from Core.Write (after having run).
-				// The entry, the other cores and the terminal action must be unaffected (C06, C10).
-				return fmt.Errorf("hook %d failed", id)
-			}
-			return nil
-		})
+		return zapcore.RegisterHooks(env.build(n.kids[0]), env.hookFn(n.id))
 	case 4:
 		inner := env.build(n.kids[0])
 		c, err := zapcore.NewIncreaseLevelCore(inner, env.enabler(n.en))
@@ -279,6 +266,25 @@ func (env *c05env) build(n *c05node) zapcore.Core {
 		return zapcore.NewLazyWith(env.build(n.kids[0]), []zapcore.Field{zap.Int("lazy", 1)})
 	}
 	return env.build(n.kids[0]).With([]zapcore.Field{zap.Int("with", 1)})
+}
+
+// the hook number id: records (1 id) every time it runs
+func (env *c05env) hookFn(id int) func(zapcore.Entry) error {
+	return func(e zapcore.Entry) error {
+		if env.onHook != nil {
+			env.onHook(id)
+		}
+		if env.onEntry != nil {
+			env.onEntry(id, e)
+		}
+		env.events = append(env.events, c05ev{1, id})
+		if id%2 == 1 {
+			// a failing core: hooks with an odd id report an error from Core.Write (after having run).
+			// The entry, the other cores and the terminal action must be unaffected (C06, C10).
+			return fmt.Errorf("hook %d failed", id)
+		}
+		return nil
+	}
 }
 
 func c05newEnv(cs *c05case) *c05env {
@@ -456,7 +462,7 @@ func c05run(cs *c05case) (obs SX, delivered, silent int) {
 		case 4:
 			outs = append(outs, Bool(cur.g.V(o.n)))
 		case 5:
-			cur = c05newLg(c05derive(lg, o.n, i, zapcore.Level(o.v)))
+			cur = c05newLg(c05derive(env, lg, o, i))
 			loggers = append(loggers, cur)
 			outs = append(outs, L())
 		}
@@ -867,11 +873,12 @@ func c05(c *Ctx) {
 	c05directed(c)
 	c05directedSamplers(c)
 	c05directedUpdates(c)
+	c05directedSiblings(c)
 	// Fork: NewRNG's streams for consecutive seeds are shifted copies of each other
 	r := NewRNG(c.Seed).Fork()
-	nSweep, nHist := 300, 4500
+	nSweep, nHist, nSib := 300, 4500, 500
 	if c.Thorough {
-		nSweep, nHist = 6000, 80000
+		nSweep, nHist, nSib = 6000, 80000, 10000
 	}
 	anyFams := []int{0, 1, 2, 3, 4, 5, 6}
 	for k := 0; k < nSweep; k++ {
@@ -921,9 +928,12 @@ func c05(c *Ctx) {
 				ops = append(ops, c05op{kind: 4, n: g.r.Range(-1, 5)})
 			case x < 97:
 				// a new logger derived from the current one
-				o := c05op{kind: 5, n: g.r.Intn(6)}
+				o := c05op{kind: 5, n: g.r.Intn(8)}
 				if o.n == 5 {
 					o.v = int8(g.r.Range(-1, 6))
+				}
+				if o.n >= 6 {
+					o.a = c05sibHook + nlg // one more hook on the current logger (c05_sib.go)
 				}
 				ops = append(ops, o)
 				nlg++
@@ -934,6 +944,7 @@ func c05(c *Ctx) {
 		}
 		c05emit(c, &c05case{tree: t, cells: g.cells, obs: g.obs, ops: ops, mode: g.r.Intn(2)}, "hist")
 	}
+	c05randomSiblings(c, r, nSib)
 }
 
 func init() { registry["C05"] = c05 }
